@@ -36,6 +36,9 @@ Progs == <<
   "(defmacro keepm (fn [& ops] (list 'quote ops))) (def k1 (keepm a b c)) (def k2 (concat k1 '(d))) (def k3 (conj k1 'z)) (trace! (list k1 k2 k3))",
   \* a let-bound value, derived from in the body, read again
   "(trace! (let [v [1 2 3] w (conj v 4) x (concat v [5]) y (assoc v 0 9)] (list v w x y)))",
+  \* a catch variable named like a binding a closure reads
+  "(def err [1 2 3]) (def rd (fn [] err)) (def h (try (throw {:code 7}) (catch err (get err :code)))) (trace! (list h err (rd)))",
+  "(trace! (let [e [1 2] g (fn [] e) r (try (throw :x) (catch e e))] (list r e (g))))",
   "(def mk (fn [v] (fn [] v))) (def c1 (mk [1 2 3])) (def c2 (mk (c1))) (def d (conj (c1) 4)) (def e (concat (c2) [5])) (trace! (list (c1) (c2) d e))" >>
 
 ASSUME InitRegisters
